@@ -84,7 +84,9 @@ func (sc *scenario) load() {
 		mx.RegisterInstance(t)
 		sc.registered = append(sc.registered, t.InstName)
 	}
-	for i, keys := range sc.g.tables {
+	tables := map[int]map[addr]bool{}
+	collectTables(sc.top, tables)
+	for i, keys := range tables {
 		t := mx.NewTable(tblname(i))
 		for k := range keys {
 			t.M[sc.al.canon(k)] = []string{"1"}
@@ -98,6 +100,39 @@ func (sc *scenario) load() {
 	r.pipe(0, sc.top)
 	sc.text = r.sb.String()
 	sc.pl, sc.loadErr = mx.BuildPipeline(sc.text, nil)
+}
+
+// collectTables gathers the content of the source_in / destination_in tables from the AST.
+func collectTables(p *pipe, out map[int]map[addr]bool) {
+	doRcpt := func(b *rcptBlock) {
+		for _, t := range b.targets {
+			if t.reroute != nil {
+				collectTables(t.reroute, out)
+			}
+		}
+	}
+	doSrc := func(s *srcBlock) {
+		if s.implicit != nil {
+			doRcpt(s.implicit)
+			return
+		}
+		for _, it := range s.items {
+			if it.kind == "in" {
+				out[it.table] = it.keys
+			}
+			doRcpt(it.rcpt)
+		}
+	}
+	if p.implicit != nil {
+		doSrc(p.implicit)
+		return
+	}
+	for _, it := range p.items {
+		if it.kind == "in" {
+			out[it.table] = it.keys
+		}
+		doSrc(it.src)
+	}
 }
 
 // tomb replaces a case's scripted modules in maddy's process-global instance registry when the
@@ -154,48 +189,34 @@ func pairsString(ps map[pair]bool) []string {
 	return out
 }
 
-// runEnvelope drives one message and judges it. Returns decision classes seen (for shapes).
-func (sc *scenario) runEnvelope(c *rep.Case, r *rep.Reporter, rt *router, ei int, env envelope, kinds map[string]bool) {
+// rcptObs is what was observed for one envelope recipient.
+type rcptObs struct {
+	err       error
+	handed    map[pair]bool
+	unknown   []string
+	afterData bool
+}
+
+// drive sends one message through the loaded pipeline and records, per envelope recipient,
+// the result of RCPT and the hand-overs to scripted targets that happened during that RCPT.
+func (sc *scenario) drive(env envelope, ei int) (error, []rcptObs) {
 	ctx := context.Background()
-	witness := func(extra map[string]any) map[string]any {
-		w := map[string]any{
-			"config": sc.text, "sender": env.senderText, "sender_class": env.sender.String(),
-			"rcpts": env.rcptText, "log": sc.lg.Strings(60),
-		}
-		var cls []string
-		for _, x := range env.rcpts {
-			cls = append(cls, x.String())
-		}
-		w["rcpt_classes"] = cls
-		for k, v := range extra {
-			w[k] = v
-		}
-		return w
-	}
 	meta := &module.MsgMetadata{ID: fmt.Sprintf("%s-m%d", sc.tag, ei), OriginalFrom: env.senderText, SMTPOpts: smtp.MailOptions{UTF8: true}}
-	r.Count("envelopes", 1)
-	r.Distinct("sender_spelling_kinds", env.senderKind)
-
-	// model first: decisions for every envelope recipient
-	expect := make([][]leaf, len(env.rcpts))
-	for i, rc := range env.rcpts {
-		expect[i] = rt.route(sc.top, env.sender, env.senderText, rc, env.rcptText[i], nil)
-	}
-
+	out := make([]rcptObs, len(env.rcpts))
 	d, startErr := sc.pl.Start(ctx, meta, env.senderText)
 	accepted := 0
 	for i := range env.rcpts {
-		r.Distinct("rcpt_spelling_kinds", env.rcptKind[i])
 		before := sc.lg.Len()
-		var err error
+		o := &out[i]
+		o.handed = map[pair]bool{}
 		if startErr != nil {
-			err = startErr
+			o.err = startErr
 		} else {
-			err = d.AddRcpt(ctx, env.rcptText[i], smtp.RcptOptions{})
+			o.err = d.AddRcpt(ctx, env.rcptText[i], smtp.RcptOptions{})
 		}
-		// observed hand-overs during this RCPT
-		obs := map[pair]bool{}
-		var unknown []string
+		if o.err == nil {
+			accepted++
+		}
 		for _, e := range sc.lg.Events()[before:] {
 			if e.Kind != "addrcpt.call" {
 				continue
@@ -203,165 +224,46 @@ func (sc *scenario) runEnvelope(c *rep.Case, r *rep.Reporter, rt *router, ei int
 			ti, ok := sc.tgtIdx[e.Target]
 			cl, ok2 := sc.al.classify(e.Rcpt)
 			if !ok || !ok2 {
-				unknown = append(unknown, e.Target+"<-"+e.Rcpt)
+				o.unknown = append(o.unknown, e.Target+"<-"+e.Rcpt)
 				continue
 			}
-			obs[pair{ti, cl}] = true
-		}
-		r.Count("handovers_observed", int64(len(obs)))
-		want := map[pair]bool{}
-		var refusals []*rejectSpec
-		vias := map[string]bool{}
-		maxDepth := 0
-		for _, lf := range expect[i] {
-			vias[lf.via] = true
-			if lf.depth > maxDepth {
-				maxDepth = lf.depth
-			}
-			if lf.refuse != nil {
-				refusals = append(refusals, lf.refuse)
-			} else {
-				want[pair{lf.target, lf.rcpt}] = true
-			}
-		}
-		viaList := make([]string, 0, len(vias))
-		for v := range vias {
-			viaList = append(viaList, v)
-		}
-		sort.Strings(viaList)
-		class := "deliver"
-		switch {
-		case len(refusals) > 0 && len(want) > 0:
-			class = "mixed"
-		case len(refusals) > 0:
-			class = "refuse"
-		}
-		kinds[class+":"+strings.Join(viaList, ",")+fmt.Sprintf(":d%d", maxDepth)] = true
-		r.Count("rcpt_decisions_"+class, 1)
-		for _, v := range viaList {
-			r.Distinct("selection_paths", v)
-		}
-		spk := "spelling=" + env.senderKind + "|" + env.rcptKind[i]
-		w := func(extra map[string]any) map[string]any {
-			m := witness(extra)
-			m["rcpt"] = env.rcptText[i]
-			m["rcpt_class"] = env.rcpts[i].String()
-			m["expected_handovers"] = pairsString(want)
-			m["observed_handovers"] = pairsString(obs)
-			m["model_paths"] = viaList
-			m["spelling"] = spk
-			if err != nil {
-				m["error"] = err.Error()
-			}
-			return m
-		}
-		if len(unknown) > 0 {
-			c.Violation("handover/unknown-recipient", fmt.Sprintf("a target was handed a recipient that is no spelling of any address of the alphabet: %v", unknown), w(nil))
-			continue
-		}
-		disc, what := "", ""
-		switch class {
-		case "deliver":
-			if err != nil {
-				disc, what = "refused-but-block-delivers", fmt.Sprintf("recipient %q (sender %q) refused with %v; the selected block(s) deliver to %v", env.rcptText[i], env.senderText, err, pairsString(want))
-				break
-			}
-			accepted++
-			if miss, extra := diff(want, obs); len(miss) > 0 || len(extra) > 0 {
-				disc = "handover"
-				if len(miss) > 0 {
-					disc += "-missing"
-				}
-				if len(extra) > 0 {
-					disc += "-unexpected"
-				}
-				what = fmt.Sprintf("recipient %q (sender %q): targets handed %v, selected block(s) say %v", env.rcptText[i], env.senderText, pairsString(obs), pairsString(want))
-			}
-		case "refuse":
-			if err == nil {
-				accepted++
-				disc, what = "accepted-but-block-rejects", fmt.Sprintf("recipient %q (sender %q) accepted and handed to %v; the selected block rejects (%s)", env.rcptText[i], env.senderText, pairsString(obs), refusals[0])
-				break
-			}
-			if len(obs) > 0 {
-				disc, what = "refused-recipient-seen-by-target", fmt.Sprintf("recipient %q refused (%v) but targets were handed %v", env.rcptText[i], err, pairsString(obs))
-				break
-			}
-			if ok, why := matchAnyReply(r, refusals, err); !ok {
-				disc, what = "refusal-reply-differs", fmt.Sprintf("recipient %q (sender %q) refused, but not with the selected block's configured reply (%s): %s", env.rcptText[i], env.senderText, refusals[0], why)
-			}
-		case "mixed":
-			// 1:N rewriting (or a reroute next to a deliver_to) where some results are refused and
-			// others delivered: the statement does not say whether the envelope recipient as a whole
-			// is refused. Judged only: nothing outside the model's hand-overs, and a refusal (if any)
-			// carries one of the configured replies.
-			r.Count("rcpt_mixed_outcome_partially_judged", 1)
-			if err == nil {
-				accepted++
-			}
-			if _, extra := diff(want, obs); len(extra) > 0 {
-				disc, what = "handover-unexpected", fmt.Sprintf("recipient %q: targets handed %v, not all within the selected blocks' %v", env.rcptText[i], pairsString(obs), pairsString(want))
-			} else if err != nil {
-				if ok, why := matchAnyReply(r, refusals, err); !ok {
-					disc, what = "refusal-reply-differs", fmt.Sprintf("recipient %q refused, but with none of the configured replies of the selected blocks: %s", env.rcptText[i], why)
-				}
-			}
-		}
-		if disc != "" {
-			sig, expl := sc.explain(env, i, err, obs, expect[i], disc)
-			c.Violation(sig, what+" ["+expl+"]", w(map[string]any{"cause_class": expl}))
+			o.handed[pair{ti, cl}] = true
 		}
 	}
-	if startErr == nil {
-		hdr := textproto.Header{}
-		hdr.Add("Subject", "c04")
-		if accepted > 0 {
-			before := sc.lg.Len()
-			if err := d.Body(ctx, hdr, buffer.MemoryBuffer{Slice: []byte("x\r\n")}); err != nil {
-				c.Inconclusive("Body failed: " + err.Error())
-				d.Abort(ctx)
-			} else if err := d.Commit(ctx); err != nil {
-				c.Inconclusive("Commit failed: " + err.Error())
-			}
-			for _, e := range sc.lg.Events()[before:] {
-				if e.Kind == "addrcpt.call" {
-					c.Violation("handover/after-data", "a target was handed a recipient after the envelope was complete", witness(nil))
-				}
-			}
-		} else {
-			d.Abort(ctx)
-		}
+	if startErr != nil {
+		return startErr, out
+	}
+	if accepted == 0 {
+		d.Abort(ctx)
+		return nil, out
+	}
+	hdr := textproto.Header{}
+	hdr.Add("Subject", "c04")
+	before := sc.lg.Len()
+	if err := d.Body(ctx, hdr, buffer.MemoryBuffer{Slice: []byte("x\r\n")}); err != nil {
+		d.Abort(ctx)
 	} else {
-		r.Count("mail_refused", 1)
+		d.Commit(ctx)
 	}
+	for _, e := range sc.lg.Events()[before:] {
+		if e.Kind == "addrcpt.call" {
+			out[0].afterData = true
+		}
+	}
+	return nil, out
 }
 
-func spellSig(env envelope, i int) string {
-	// cause class of the spelling: canonical everywhere, or which dimension deviates
-	f := map[string]bool{}
-	for _, k := range []string{env.senderKind, env.rcptKind[i]} {
-		for _, part := range strings.Split(k, "/") {
-			switch part {
-			case "base", "null":
-			case "upper", "mixed":
-				f["case"] = true
-			case "nfd":
-				f["nfd"] = true
-			case "upper-nfd", "nfd-then-upper":
-				f["case+nfd"] = true
-			case "alabel":
-				f["alabel"] = true
-			case "ALABEL", "AlAbEl":
-				f["ALABEL"] = true
-			default:
-				f[part] = true
-			}
+func splitLeaves(ls []leaf) (map[pair]bool, []*rejectSpec) {
+	want := map[pair]bool{}
+	var refusals []*rejectSpec
+	for _, lf := range ls {
+		if lf.refuse != nil {
+			refusals = append(refusals, lf.refuse)
+		} else {
+			want[pair{lf.target, lf.rcpt}] = true
 		}
 	}
-	if len(f) == 0 {
-		return "canonical-spelling"
-	}
-	return "spelling:" + featKey(f)
+	return want, refusals
 }
 
 func matchAnyReply(r *rep.Reporter, refusals []*rejectSpec, err error) (bool, string) {
@@ -379,126 +281,129 @@ func matchAnyReply(r *rep.Reporter, refusals []*rejectSpec, err error) (bool, st
 	return false, why
 }
 
-func splitLeaves(ls []leaf) (map[pair]bool, []*rejectSpec) {
-	want := map[pair]bool{}
-	var refusals []*rejectSpec
-	for _, lf := range ls {
-		if lf.refuse != nil {
-			refusals = append(refusals, lf.refuse)
-		} else {
-			want[pair{lf.target, lf.rcpt}] = true
-		}
+// judge compares the model's decision for envelope recipient i with the observation.
+// It returns the discrepancy class ("" = conforming) and a description.
+func judge(leaves []leaf, env envelope, i int, startErr error, o rcptObs, r *rep.Reporter) (string, string) {
+	want, refusals := splitLeaves(leaves)
+	if len(o.unknown) > 0 {
+		return "handed-unknown-recipient", fmt.Sprintf("a target was handed a recipient that is no spelling of any address of the alphabet: %v", o.unknown)
 	}
-	return want, refusals
-}
-
-func itemKind(it item) string {
-	switch it.kind {
-	case "in":
-		return "table"
-	case "rule":
-		hasA, hasD := false, false
-		for _, ru := range it.rules {
-			if ru.isAddr {
-				hasA = true
-			} else {
-				hasD = true
+	if o.afterData {
+		return "handed-after-data", "a target was handed a recipient after the envelope was complete"
+	}
+	rc, snd := env.rcptText[i], env.senderText
+	switch {
+	case len(refusals) == 0: // every result is delivered
+		if o.err != nil {
+			return "refused-but-block-delivers", fmt.Sprintf("recipient %q (sender %q) refused with %v; the selected block(s) deliver to %v", rc, snd, o.err, pairsString(want))
+		}
+		if miss, extra := diff(want, o.handed); len(miss) > 0 || len(extra) > 0 {
+			disc := "handed"
+			if len(miss) > 0 {
+				disc += "-not-to-selected-target"
+			}
+			if len(extra) > 0 {
+				disc += "-to-other-target-or-as-other-recipient"
+			}
+			return disc, fmt.Sprintf("recipient %q (sender %q): targets were handed %v, the selected block(s) say %v", rc, snd, pairsString(o.handed), pairsString(want))
+		}
+	case len(want) == 0: // every result is refused
+		if o.err == nil {
+			return "accepted-but-block-rejects", fmt.Sprintf("recipient %q (sender %q) accepted and handed to %v; the selected block rejects (%s)", rc, snd, pairsString(o.handed), refusals[0])
+		}
+		if len(o.handed) > 0 {
+			return "refused-recipient-seen-by-target", fmt.Sprintf("recipient %q refused (%v) but targets were handed %v", rc, o.err, pairsString(o.handed))
+		}
+		if ok, why := matchAnyReply(r, refusals, o.err); !ok {
+			return "refusal-reply-differs", fmt.Sprintf("recipient %q (sender %q) refused, but not with the selected block's configured reply (%s): %s", rc, snd, refusals[0], why)
+		}
+	default:
+		// 1:N rewriting (or a reroute next to a deliver_to) where some results are refused and
+		// others delivered: the statement does not say whether the envelope recipient as a whole
+		// is refused. Judged only: nothing outside the model's hand-overs, and a refusal (if any)
+		// carries one of the configured replies.
+		if r != nil {
+			r.Count("rcpt_mixed_outcome_partially_judged", 1)
+		}
+		if _, extra := diff(want, o.handed); len(extra) > 0 {
+			return "handed-to-other-target-or-as-other-recipient", fmt.Sprintf("recipient %q: targets were handed %v, not all within the selected blocks' %v", rc, pairsString(o.handed), pairsString(want))
+		}
+		if o.err != nil {
+			if ok, why := matchAnyReply(r, refusals, o.err); !ok {
+				return "refusal-reply-differs", fmt.Sprintf("recipient %q refused, but with none of the configured replies of the selected blocks: %s", rc, why)
 			}
 		}
-		switch {
-		case hasA && hasD:
-			return "address-or-domain-rule"
-		case hasA:
-			return "address-rule"
-		}
-		return "domain-rule"
 	}
-	return "default"
+	return "", ""
 }
 
-// explain names the cause class of a discrepancy: it looks for a deliberately wrong router
-// (a rewrite scope ignored, or another block selected at the top level) that reproduces what
-// was observed. The signature never contains generated data.
-func (sc *scenario) explain(env envelope, i int, err error, obs map[pair]bool, ref []leaf, disc string) (string, string) {
-	q := &router{al: sc.al, quiet: true}
-	matches := func(ls []leaf) bool {
-		want, refusals := splitLeaves(ls)
+// shrinkBudget bounds the number of discrepancies per process that are minimised and
+// reported; further ones are only counted (the run fails anyway).
+var shrinkBudget = 24
+
+// runEnvelope drives one message and judges every recipient.
+func (sc *scenario) runEnvelope(c *rep.Case, r *rep.Reporter, rt *router, ei int, env envelope, kinds map[string]bool) {
+	r.Count("envelopes", 1)
+	r.Distinct("sender_spelling_kinds", env.senderKind)
+	expect := make([][]leaf, len(env.rcpts))
+	for i, rc := range env.rcpts {
+		expect[i] = rt.route(sc.top, env.sender, rc)
+	}
+	startErr, obs := sc.drive(env, ei)
+	if startErr != nil {
+		r.Count("mail_refused", 1)
+	}
+	for i := range env.rcpts {
+		r.Distinct("rcpt_spelling_kinds", env.rcptKind[i])
+		r.Count("handovers_observed", int64(len(obs[i].handed)))
+		want, refusals := splitLeaves(expect[i])
+		vias := map[string]bool{}
+		maxDepth := 0
+		for _, lf := range expect[i] {
+			vias[lf.via] = true
+			r.Distinct("selection_paths", lf.via)
+			if lf.depth > maxDepth {
+				maxDepth = lf.depth
+			}
+		}
+		class := "deliver"
 		switch {
 		case len(refusals) > 0 && len(want) > 0:
-			return false
+			class = "mixed"
 		case len(refusals) > 0:
-			if err == nil || len(obs) > 0 {
-				return false
-			}
-			ok, _ := matchAnyReply(nil, refusals, err)
-			return ok
+			class = "refuse"
 		}
-		if err != nil {
-			return false
+		kinds[class+":"+featKey(vias)+fmt.Sprintf(":d%d", maxDepth)] = true
+		r.Count("rcpt_decisions_"+class, 1)
+		disc, what := judge(expect[i], env, i, startErr, obs[i], r)
+		if disc == "" {
+			continue
 		}
-		miss, extra := diff(want, obs)
-		return len(miss) == 0 && len(extra) == 0
-	}
-	try := func(a *alt) bool {
-		return matches(q.route(sc.top, env.sender, env.senderText, env.rcpts[i], env.rcptText[i], a))
-	}
-	variants := []struct {
-		name string
-		a    alt
-	}{
-		{"global-recipient-rewrite-ignored", alt{skipGlobalRcpt: true}},
-		{"source-recipient-rewrite-ignored", alt{skipSourceRcpt: true}},
-		{"destination-recipient-rewrite-ignored", alt{skipDestRcpt: true}},
-		{"source-selected-on-unrewritten-sender", alt{skipGlobalSender: true}},
-		{"source-sender-rewrite-ignored", alt{skipSourceSender: true}},
-		{"reroute-evaluated-on-original-recipient", alt{rerouteOnOriginalRcpt: true}},
-	}
-	for _, v := range variants {
-		a := v.a
-		a.forceSrc, a.forceRcpt = -1, -1
-		if try(&a) {
-			return "rewrite/" + v.name, "the implementation behaved as if: " + v.name
+		if shrinkBudget <= 0 {
+			r.Count("discrepancies_beyond_report_cap", 1)
+			continue
 		}
-	}
-	// expected selection (top level), from the reference leaves
-	expS, expR := map[string]bool{}, map[string]bool{}
-	for _, lf := range ref {
-		if lf.depth == 0 {
-			expS[lf.viaS+"("+lf.litS+")"] = true
-			expR[lf.viaR+"("+lf.litR+")"] = true
+		shrinkBudget--
+		res := sc.shrink(env, i, disc)
+		w := map[string]any{
+			"original_config": sc.text, "sender": env.senderText, "sender_class": env.sender.String(),
+			"rcpt": env.rcptText[i], "rcpt_class": env.rcpts[i].String(),
+			"expected_handovers": pairsString(want), "observed_handovers": pairsString(obs[i].handed),
+			"spelling": env.senderKind + "|" + env.rcptKind[i], "original_discrepancy": what,
 		}
-	}
-	if len(ref) > 0 && len(expS) == 0 { // all leaves are below a reroute; take the top-level decision from a quiet re-run
-		expS["?"], expR["?"] = true, true
-	}
-	top := sc.top
-	// which source block does the reference use?
-	var refSrc *srcBlock
-	if top.implicit != nil {
-		refSrc = top.implicit
-	} else {
-		s, _ := top.mods.rewriteSender(env.sender)
-		if k, _ := selectItem(top.items, s); k >= 0 {
-			refSrc = top.items[k].src
+		if obs[i].err != nil {
+			w["error"] = obs[i].err.Error()
 		}
-	}
-	if refSrc != nil && refSrc.implicit == nil {
-		for fr := range refSrc.items {
-			if try(&alt{forceSrc: -1, forceRcpt: fr}) {
-				k := itemKind(refSrc.items[fr])
-				return "selection/destination/expected-" + featKey(expR) + "/behaved-like-" + k, "the implementation behaved as if the destination block of kind " + k + " had been selected"
-			}
+		if res.minimal {
+			w["minimal_config"] = res.config
+			w["minimal_sender"] = res.env.senderText
+			w["minimal_rcpt"] = res.env.rcptText[0]
+			w["minimal_discrepancy"] = res.what
+			w["reduction_steps"] = res.steps
+			what = res.what + " (minimised witness; configuration in the replay file)"
 		}
+		c.Violation("route/"+res.sig, what, w)
 	}
-	if top.implicit == nil {
-		for fs := range top.items {
-			if try(&alt{forceSrc: fs, forceRcpt: -1}) {
-				k := itemKind(top.items[fs])
-				return "selection/source/expected-" + featKey(expS) + "/behaved-like-" + k, "the implementation behaved as if the source block of kind " + k + " had been selected"
-			}
-		}
-	}
-	return disc + "/unexplained", "no single wrong selection or ignored rewrite reproduces the observation"
 }
 
 func diff(want, obs map[pair]bool) (missing, extra []pair) {
@@ -723,10 +628,10 @@ func TestVerif(t *testing.T) {
 			envS, envR := x, y
 			if variant == 3 {
 				envS, envR = g.anyAddr(), g.anyAddr()
-				vs, _ := al.spellRandom(p, x)
-				vr, _ := al.spellRandom(p, y)
-				st := &replTable{sender: true, full: map[addr][]replVal{envS: {{a: x, text: vs}}}, local: map[int][]replVal{}, order: []replKey{{a: envS}}}
-				rtb := &replTable{full: map[addr][]replVal{envR: {{a: y, text: vr}}}, local: map[int][]replVal{}, order: []replKey{{a: envR}}}
+				vs, vsk := al.spellRandom(p, x)
+				vr, vrk := al.spellRandom(p, y)
+				st := &replTable{sender: true, full: map[addr][]replVal{envS: {{a: x, text: vs, kind: vsk}}}, local: map[int][]replVal{}, order: []replKey{{a: envS}}}
+				rtb := &replTable{full: map[addr][]replVal{envR: {{a: y, text: vr, kind: vrk}}}, local: map[int][]replVal{}, order: []replKey{{a: envR}}}
 				top.mods = &mods{tables: []*replTable{st, rtb}}
 			}
 			sc := &scenario{tag: tag, al: al, g: g, top: top}
